@@ -4,9 +4,9 @@ import read_common as rc
 ID = "C01"
 LEVEL = "proof"
 generate = rc.generate
-COQ_TARGETS = ["Props/Properties_C01.vo", "Extract/ExtractCore.vo", "Frame/FramePackedSafe.vo"] + l0_common.COQ_TARGETS
+COQ_TARGETS = ["Props/Properties_C01.vo", "Props/Properties_C01_text.vo", "Extract/ExtractCore.vo", "Frame/FramePackedSafe.vo"] + l0_common.COQ_TARGETS
 EXTRA_OBLIGATIONS = ["Frame/FramePackedSafe.v:pdecode_n_then_read_safe_any"]
-PROPS_FILES = ["Props/Properties_C01.v"] + l0_common.PROPS_FILES
+PROPS_FILES = ["Props/Properties_C01.v", "Props/Properties_C01_text.v"] + l0_common.PROPS_FILES
 RUNS = [rc.READ_RUN] + l0_common.RUNS
 EXPLANATION = ("Theorems: for every message (any number of segments, any lengths up to 2^32-8, any bytes) and any limits, "
                "Root never panics; every accessor on a well-formed pointer returns a value or an error, returned pointers "
@@ -29,15 +29,32 @@ LEVEL_TEXT = ("Proof (Coq, all inputs / all op lists) of panic-freedom and in-se
               "bytes through Unmarshal / UnmarshalPacked / Decoder (any chunking, plain and packed, malformed packed streams "
               "included) to every in-domain accessor sequence and the generic walker, and for the consumers Equal, Canonicalize "
               "and cross-message deep copy; L0 arithmetic regenerated from the Go source and re-checked on every run; model tied "
-              "to the code by a differential run over built, raw, mutated and cyclic messages. NOT proved: text.Marshal and "
-              "pogs.Extract on hostile bytes (see note).")
-LEVEL_NOTE = ("Gap, in plain words: the property text also names 'text rendering' and 'extraction into Go structs', and DESIGN "
-              "planned a [T1] consumers_total for them. There is NO C01 theorem for text.Marshal or pogs.Extract over the reader "
+              "to the code by a differential run over built, raw, mutated and cyclic messages. text.Marshal: a Go-faithful model "
+              "of the encoder's walk composed with the reader model (Text/TextRead.v render_r) is proved panic-free with every "
+              "accessor call on a well-formed receiver for all segment bytes, all well-formed schemas, all limits "
+              "(C01_text_render_no_panic, C01_text_render_reads_wf); that model is NOT yet tied to text.Marshal by a run of its "
+              "own. NOT proved: pogs.Extract on hostile bytes (see note).")
+LEVEL_NOTE = ("text.Marshal: coq/Text/TextRead.v models marshalStruct / marshalFieldValue / marshalList / marshalEnum and the typed "
+              "lists' String methods reading the value through Core/Reader.v (data fields, Struct.Ptr, HasPtr, List.Struct, "
+              "PointerList.At, UIntNList.At, BitList.At, Ptr.text / Data, unions, groups, defaults for null AND wrong-kind "
+              "pointers, the () cut of fix 4b73eba) over TextM's schema representation. Proved for ALL segment bytes, all "
+              "schemas satisfying the decidable schema_wf (supported widths, DataOffset < 2^19, group nesting <= G), all T, D, all "
+              "fuel: never RPanic (C01_text_render_no_panic); every accessor call has a well-formed receiver, so "
+              "C01_accessor_safe gives in-segment results for each (C01_text_render_reads_wf). Limits of this part: the walk of a "
+              "schema DEFAULT value (it lives in the schema message, not in the hostile message) is an argument of the model "
+              "(instantiated with TextM.shown_struct / shown_list; its result type has no panic outcome, so nothing is assumed for "
+              "C01); schema reads are free (schema budget: C20); the destination writer's errors and strconv are not modelled; "
+              "a schema with data offsets >= 2^19 is outside schema_wf (Struct.UintN panics there by documentation); the model "
+              "render_r is checked against the code only through the shared reader model and the Coq examples "
+              "(Text/TextReadExamples.v) - a differential run of text.Marshal vs the extracted render_go on hostile / cyclic "
+              "messages is NOT yet built (C20's hostile run covers panic-freedom of the real code). "
+              "Remaining gap, in plain words: the property text also names 'extraction into Go structs', and DESIGN "
+              "planned a [T1] consumers_total for it. There is NO C01 theorem for pogs.Extract over the reader "
               "model on arbitrary bytes. What exists: C19_extract_never_panics / C19_extract_total / C19_extract_fuel_sufficient "
               "are over the pogs model's abstract struct contents (not over segment bytes), and C20 has only "
-              "C20_render_total_flat_partial; neither is composed with Core/Reader.v. For these two consumers panic-freedom on "
-              "hostile messages is covered only by the C19 / C20 differential runs (a Go panic is a violation there) and by "
-              "C01_walk_safe for the recursion shape they share. Everything else in the statement (root, accessors, all call "
+              "C20_render_total_flat_partial; the pogs model is not composed with Core/Reader.v. For pogs.Extract panic-freedom on "
+              "hostile messages is covered only by the C19 differential run (a Go panic is a violation there) and by "
+              "C01_walk_safe for the recursion shape it shares. Everything else in the statement (root, accessors, all call "
               "sequences, Equal, Canonicalize, deep copy, packed and unpacked framing) has a theorem. "
               "Also not modelled as ops: Interface.Client() / capability-table lookup and the *Default accessors (no memory "
               "access beyond the modelled ones); C01_accessor_safe states for typed list reads only that the value comes from an "
